@@ -235,6 +235,10 @@ structure Case where
   hosts : Nat := 2
   live : Bool := false
   reclaim : Bool := false
+  nok : Bool := false
+  fixture : Bool := false
+  e2eDrops : Nat := 0
+  e2eHold : Nat := 0
   ops : Array OpRec := #[]
   panic : Option String := none
   deriving Inhabited
@@ -255,6 +259,10 @@ def parseCfg (c : Case) (toks : List String) : Case :=
       | "retxmax" => { c with cfg := { c.cfg with retxMax := n } }
       | "live" => { c with live := n == 1 }
       | "reclaim" => { c with reclaim := n == 1 }
+      | "nok" => { c with nok := n == 1 }
+      | "fixture" => { c with fixture := n == 1 }
+      | "drops" => { c with e2eDrops := n }
+      | "hold" => { c with e2eHold := n }
       | _ => c
     | _ => c) c
 
@@ -429,7 +437,7 @@ def oracle (prop : String) (c : Case) (h : Spec.History) (closedWin hsRetx : Boo
     | some m => { fail := some m }
     | none =>
       if c.live then
-        match Spec.c06Liveness c.cfg h with
+        match (if c.fixture then Spec.c06LivenessE2E c.cfg c.e2eDrops c.e2eHold h else Spec.c06Liveness c.cfg h) with
         | some m =>
           let pat := if closedWin && patStaleZeroWindow h then "F-C06-4" else if closedWin then "F-C06-2"
                      else if patLostHandshakeAck h then "F-C06-3"
@@ -519,9 +527,10 @@ def covTags (c : Case) (h : Spec.History) : List String := Id.run do
 /-! ### main loop -/
 
 def processCase (prop : String) (c : Case) : IO (Bool × Bool) := do
-  let k0 := replay c.cfg c
+  let k0 : KRes := if c.nok then { ok := true } else replay c.cfg c
   let (kOk, variant, kr, kgood) :=
-    if k0.ok then (true, "faithful", k0, k0)
+    if c.nok then (true, "-", k0, k0)
+    else if k0.ok then (true, "faithful", k0, k0)
     else
       match (fixedVariants c.cfg).findSome? fun cfg => let r := replay cfg c; if r.ok then some r else none with
       | some r => (true, "fixed", k0, r)
